@@ -93,8 +93,14 @@ class SimLock(object):
             self.owner = 'main'
             return True
         sched.yield_point('acq:' + self.name)
+        timed = blocking and timeout is not None and timeout >= 0
         while self.owner is not None:
-            if not blocking:
+            if not blocking or (timed and timeout == 0):
+                return False
+            if timed and sched.tape.draw('ltimeout', 4) == 3:
+                # a bounded wait: the operating system may keep the owner off the CPU for longer than that (a legal schedule)
+                sched.clock.advance(timeout)
+                sched.probe('lock_wait_timed_out')
                 return False
             th.state = BLOCKED
             th.waiting_for = self
@@ -127,6 +133,35 @@ class SimLock(object):
     def __exit__(self, *a):
         self.release()
         return False
+
+
+class SimRLock(SimLock):
+    """Cooperative replacement for threading.RLock (re-entrant for its owner)."""
+
+    def __init__(self, sched, name='rlock'):
+        SimLock.__init__(self, sched, name)
+        self.depth = 0
+
+    def _me(self):
+        sched = self.sched
+        th = sched.current() if sched is not None else None
+        return th if th is not None else 'main'
+
+    def acquire(self, blocking=True, timeout=-1):
+        if self.owner is not None and self.owner is self._me():
+            self.depth += 1
+            return True
+        ok = SimLock.acquire(self, blocking, timeout)
+        if ok:
+            self.depth = 1
+        return ok
+
+    def release(self):
+        if self.owner is None or self.owner is not self._me():
+            raise RuntimeError('cannot release un-acquired lock')
+        self.depth -= 1
+        if self.depth == 0:
+            SimLock.release(self)
 
 
 class Sched(object):
